@@ -57,6 +57,24 @@ def gen_case(rng, tier):
         max_n = rng.choice((70, 100, 128, 140) if tier == "quick" else (70, 100, 130, 160, 220))
         big = True
     G, H, iso = mg.gen_pair(rng, max_n)
+    if rng.random() < 0.003:
+        # diameters and vertex counts right at the integer-type boundaries, against a single vertex, for which
+        # the distance is known at any size: 2 mGH(G, point) = diam G
+        n = rng.choice((127, 128, 129, 130, 255, 256, 257, 258))
+        e = [[i, i + 1] for i in range(n - 1)]
+        if rng.random() < 0.5:
+            e.append([n - 1, 0])                      # cycle: diameter n // 2
+        G, H = {"n": n, "edges": e}, {"n": 1, "edges": []}
+        if rng.random() < 0.5:
+            G, H = H, G
+        return {
+            "inputs": {"G": G, "H": H, "iso": False, "mso": list(rng.choice(mg.MSO_CHOICES)),
+                       "repG": {"fmt": rng.choice(("csr", "dense")), "fill": "upper", "dtype": "int"},
+                       "repH": {"fmt": rng.choice(("csr", "dense")), "fill": "upper", "dtype": "int"}},
+            "config": {"evals": [{"mode": rng.choice(simrandom.MODES), "k": rng.randrange(1000)}],
+                       "use_default_mso": rng.random() < 0.3, "size_free_only": True},
+            "ops": [],
+        }
     wide = rng.random() < 0.004          # cheap (diameter 2..8) but beyond 127 equal distances per row
     if wide:
         max_n = rng.choice((129, 150, 200, 260))
@@ -118,6 +136,11 @@ def run_case(case, sched):
     if not cfg.get("size_free_only"):
         exact2, dG, dH = mg.exact_double_mgh(G, H)
         diam = max(dG, dH)
+    elif min(G["n"], H["n"]) == 1:
+        # analytic reference at any size: every map of X onto a point has distortion diam X
+        big_ = G if G["n"] > 1 else H
+        dG = dH = 0
+        exact2 = int(ref_mgh.distance_matrix(big_["n"], big_["edges"]).max()) if big_["n"] > 1 else 0
     # isomorphism is only asserted when it holds by construction *and* survived shrinking
     iso = bool(inp.get("iso")) and G["n"] == H["n"] and len(G["edges"]) == len(H["edges"]) and exact2 == 0
     evs = cfg.get("evals") or []
